@@ -1,5 +1,8 @@
 #!/bin/sh
-# regenerate _CoqProject from the files on disk (one logical root V)
+# regenerate _CoqProject / Makefile.coq from the files on disk (one logical root V); atomic, only when changed
 cd "$(dirname "$0")"
-{ echo "-Q . V"; echo "-arg -w -arg -notation-overridden,-deprecated-hint-without-locality,-deprecated-instance-without-locality"; ls Base/*.v Model/*.v Proofs/*.v Properties/*.v Run/*.v 2>/dev/null | sort; } > _CoqProject
+tmp=$(mktemp ./.proj.XXXXXX)
+{ echo "-Q . V"; echo "-arg -w -arg -notation-overridden,-deprecated-hint-without-locality,-deprecated-instance-without-locality"; ls Base/*.v Model/*.v Proofs/*.v Properties/*.v Run/*.v 2>/dev/null | sort; } > "$tmp"
+if [ -f _CoqProject ] && [ -f Makefile.coq ] && cmp -s "$tmp" _CoqProject; then rm -f "$tmp"; exit 0; fi
+mv "$tmp" _CoqProject
 coq_makefile -f _CoqProject -o Makefile.coq >/dev/null
